@@ -4,6 +4,7 @@ import (
 	"bytes"
 	"encoding/json"
 	"fmt"
+	"go/ast"
 	"go/format"
 	"go/parser"
 	"go/scanner"
@@ -401,6 +402,8 @@ func c03Judge(src []byte) (sig, what string) {
 					if c == "//" {
 						continue
 					}
+					// go/printer's doc-comment formatter also turns `` and '' into typographic quotes
+					c = strings.NewReplacer("``", "\"", "''", "\"", "\u201c", "\"", "\u201d", "\"").Replace(c)
 					m[strings.Join(strings.Fields(strings.ReplaceAll(c, "//", "// ")), "")]++
 				}
 				return m
@@ -416,7 +419,10 @@ func c03Judge(src []byte) (sig, what string) {
 			}
 			return "comments-differ", fmt.Sprintf("comments lost %q, comments appearing %q", lost, extra)
 		}
-		if commentsOutsideImports(out.Bytes()) == commentsOutsideImports(want) {
+		if hasGenericAlias(src) {
+			return "generic-alias-comment-order", "comments around the '=' of a generic type alias come out in a different order (the restorer renders '=' before the type parameters, K2)"
+		}
+		if ci := commentsOutsideImports(out.Bytes()); ci != "\x00" && ci == commentsOutsideImports(want) {
 			return "import-specs-reordered", "comment order differs only inside the import declarations, whose specs were re-sorted"
 		}
 		return "comment-order-differs", "comment texts are conserved but their order is neither the input's nor gofmt's"
@@ -493,6 +499,9 @@ func checkC03(c *Ctx) {
 				in := key
 				if p.Name == "crlf" {
 					in = "crlf|" + f.Path
+				}
+				if sig == "generic-alias-comment-order" {
+					in = "generic-alias|" + key
 				}
 				c.Fail(Finding{Sig: sig, Input: in, What: p.Name + ": " + what + " (" + f.Path + ")", Replay: obj{"kind": "c03", "path": f.Path, "perturbation": p.Name, "seed": seeds[i]}})
 			}
@@ -577,4 +586,20 @@ func orderKey(coms []string) string {
 		out = append(out, c)
 	}
 	return strings.Join(out, "\x00")
+}
+
+// hasGenericAlias: the source declares a type alias with type parameters (type A[T any] = B[T]).
+func hasGenericAlias(src []byte) bool {
+	f, err := parser.ParseFile(token.NewFileSet(), "", src, parser.SkipObjectResolution)
+	if err != nil {
+		return false
+	}
+	found := false
+	ast.Inspect(f, func(n ast.Node) bool {
+		if ts, ok := n.(*ast.TypeSpec); ok && ts.TypeParams != nil && ts.Assign.IsValid() {
+			found = true
+		}
+		return !found
+	})
+	return found
 }
